@@ -90,5 +90,37 @@ func (s *Struct) validate() error {
 			return fmt.Errorf("%v: %w", s.Def.Name, err)
 		}
 	}
+
+	// A struct is a value type, it cannot contain itself.
+	if field, ok := s.containsStruct(s, nil); ok {
+		return fmt.Errorf("%v.%v: recursive struct not allowed", s.Def.Name, field)
+	}
 	return nil
+}
+
+// containsStruct returns the name of a field through which the struct contains the target.
+func (s *Struct) containsStruct(target *Struct, seen map[*Struct]struct{}) (string, bool) {
+	if seen == nil {
+		seen = make(map[*Struct]struct{})
+	}
+	if _, ok := seen[s]; ok {
+		return "", false
+	}
+	seen[s] = struct{}{}
+
+	for _, field := range s.Fields.Values() {
+		t := field.Type
+		if t.Kind != KindStruct || t.Ref == nil || t.Ref.Struct == nil {
+			continue
+		}
+
+		next := t.Ref.Struct
+		if next == target {
+			return field.Name, true
+		}
+		if _, ok := next.containsStruct(target, seen); ok {
+			return field.Name, true
+		}
+	}
+	return "", false
 }
